@@ -24,3 +24,5 @@ def check(ctx):
     adaptors.analyze(ctx, ("C18.e",))
     from .common import cache_foundation
     cache_foundation(ctx)
+    from . import error_rules
+    error_rules.analyze(ctx, "C15.i")     # no error is discarded on the way: a failing build / an unwritable file is reported to the caller
